@@ -14,6 +14,9 @@ Part B  decision theorems on the executable model `Model/Sig.lean` (the one the 
         `verify = true ↔ range checks ∧ parse ∧ on-curve ∧ textbook equation`; rejection corollaries.
 Part C  byte encodings: round trips and consumed lengths; point reconstruction of the public-key recovery.
 Part D  the 18 parameter sets: base point on the curve and of the stated order, sizes consistent (`decide +kernel`).
+Part E  the signer (`sign`, ops EDSGN / ECSGN): the scalar components are written in exactly sizeFr big-endian bytes and read
+        back, for every value incl. those with leading zero bytes; whatever `Sign` returns is accepted by `Verify` (byte level);
+        buffers longer than the object: only the first `size of the object` bytes count, uncompressed key forms are refused.
 -/
 namespace GV.C12
 open GV GV.Sig GV.SigAlg
@@ -674,5 +677,251 @@ def ecOK (P : ECParams) : Bool :=
 theorem C12_ec_params_ok : ∀ P ∈ SigParams.ecCurves, ecOK P = true := by decide +kernel
 
 end Params
+
+/-! ## Part E — the signer: what `Sign` writes, and that it verifies (byte level)
+
+`EdParams.sign` / `ECParams.sign` are the model of `PrivateKey.Sign` with the nonce as a parameter (ops `EDSGN` / `ECSGN`
+compare their output with the bytes the Go code produces). -/
+
+section Signer
+
+/-- the scalar encoder of both schemes: exactly `len` bytes for every value below `256^len`, whatever the number of
+    leading zero bytes, and decoding gives the value back -/
+theorem C12_scalar_bytes (len s : Nat) (h : s < 256 ^ len) :
+    (natToBE len s).length = len ∧ beToNat (natToBE len s) = s :=
+  ⟨natToBE_length _ _, beToNat_natToBE_of_lt _ _ h⟩
+
+/-- EdDSA `Sign` writes `compress R ‖ S` with `R = [r]B`, `S = (H(R,A,M)·a + r) mod ℓ` in exactly `size` big-endian
+    bytes – `2·size` bytes in all, for every `S < ℓ` (leading zero bytes included) – and the `S` read back from the bytes
+    is that value -/
+theorem C12_eddsa_sign_bytes (P : EdParams) (sm : Nat → Nat × Nat → Nat × Nat) (h : HashFn) (A : Nat × Nat) (a r : Nat)
+    (msg sig : Bytes) (hord : P.order ≤ 256 ^ P.size) (hpos : 0 < P.order)
+    (hs : P.sign sm (some h) A a r msg = .ok sig) :
+    ∃ hb, h (P.challengeWrites (sm r P.B) A msg) = .ok hb ∧ P.onCurve (sm r P.B) = true ∧
+      sig = P.sigBytes (sm r P.B) ((beToNat hb * a + r) % P.order) ∧
+      sig.length = 2 * P.size ∧
+      sig.drop P.size = natToBE P.size ((beToNat hb * a + r) % P.order) ∧
+      beToNat ((sig.drop P.size).take P.size) = (beToNat hb * a + r) % P.order := by
+  unfold EdParams.sign at hs
+  simp only [] at hs
+  split_ifs at hs with hon
+  cases hh : h (P.challengeWrites (sm r P.B) A msg) with
+  | error e => rw [hh] at hs; cases e <;> simp [liftH] at hs
+  | ok hb =>
+    rw [hh] at hs
+    simp only [liftH, Except.ok.injEq] at hs
+    have hlt : (beToNat hb * a + r) % P.order < 256 ^ P.size := lt_of_lt_of_le (Nat.mod_lt _ hpos) hord
+    have hcl := compress_length P (sm r P.B)
+    have hd : (P.sigBytes (sm r P.B) ((beToNat hb * a + r) % P.order)).drop P.size
+        = natToBE P.size ((beToNat hb * a + r) % P.order) := by
+      unfold EdParams.sigBytes; rw [List.drop_left' hcl]
+    refine ⟨hb, rfl, by simpa using hon, hs.symm, ?_, ?_, ?_⟩
+    · rw [← hs]; unfold EdParams.sigBytes; rw [List.length_append, hcl, natToBE_length]; omega
+    · rw [← hs, hd]
+    · rw [← hs, hd, List.take_of_length_le (by rw [natToBE_length]), beToNat_natToBE_of_lt _ _ hlt]
+
+/-- ECDSA `Sign` writes `r ‖ s`, each in exactly `frBytes` big-endian bytes (leading zero bytes included), with
+    `r = x([k]G) mod n ≠ 0`, `s = k⁻¹(e + r·d) mod n ≠ 0`; both are read back from the bytes -/
+theorem C12_ecdsa_sign_bytes (P : ECParams) (sm : Int → Alg.Pt Nat → Alg.Pt Nat) (H : Option HashFn) (d k : Nat)
+    (msg sig : Bytes) (hn : P.n ≤ 256 ^ P.frBytes) (hn0 : 0 < P.n)
+    (hs : P.sign sm H d k msg = .ok sig) :
+    ∃ e, P.msgInt H msg = .ok e ∧
+      0 < P.xModN (sm (Int.ofNat k) P.G) ∧ P.xModN (sm (Int.ofNat k) P.G) < P.n ∧
+      0 < invE P.n k * (e + P.xModN (sm (Int.ofNat k) P.G) * d) % P.n ∧
+      sig = P.sigBytes (P.xModN (sm (Int.ofNat k) P.G)) (invE P.n k * (e + P.xModN (sm (Int.ofNat k) P.G) * d) % P.n) ∧
+      sig.length = 2 * P.frBytes ∧
+      beToNat (sig.take P.frBytes) = P.xModN (sm (Int.ofNat k) P.G) ∧
+      beToNat (sig.drop P.frBytes) = invE P.n k * (e + P.xModN (sm (Int.ofNat k) P.G) * d) % P.n := by
+  unfold ECParams.sign at hs
+  cases hm : P.msgInt H msg with
+  | error err => rw [hm] at hs; simp at hs
+  | ok e =>
+    rw [hm] at hs
+    simp only [] at hs
+    split_ifs at hs with hz
+    simp only [Except.ok.injEq] at hs
+    have hrlt : P.xModN (sm (Int.ofNat k) P.G) < P.n := by
+      unfold ECParams.xModN
+      split
+      · exact hn0
+      · exact Nat.mod_lt _ hn0
+    have hslt : invE P.n k * (e + P.xModN (sm (Int.ofNat k) P.G) * d) % P.n < P.n := Nat.mod_lt _ hn0
+    have hl : (natToBE P.frBytes (P.xModN (sm (Int.ofNat k) P.G))).length = P.frBytes := natToBE_length _ _
+    refine ⟨e, rfl, by omega, hrlt, by omega, hs.symm, ?_, ?_, ?_⟩
+    · rw [← hs]; unfold ECParams.sigBytes; rw [List.length_append, natToBE_length, natToBE_length]; omega
+    · rw [← hs]; unfold ECParams.sigBytes; rw [List.take_left' hl, beToNat_natToBE_of_lt _ _ (by omega)]
+    · rw [← hs]; unfold ECParams.sigBytes; rw [List.drop_left' hl, beToNat_natToBE_of_lt _ _ (by omega)]
+
+variable {G : Type*} [AddCommGroup G]
+
+/-- ECDSA, byte level: whatever `Sign` returns – for every key `d`, nonce `k ≢ 0`, message and hash – is accepted by
+    `Verify` under the key `[d]G` (given that the model's addition is a group law on a set containing `G`, C02/C03) -/
+theorem C12_ecdsa_sign_verifies (P : ECParams) (φ : Alg.Pt Nat → G) (S : Alg.Pt Nat → Prop)
+    (hS : ∀ X Y, S X → S Y → S (P.E.add X Y)) (hadd : ∀ X Y, S X → S Y → φ (P.E.add X Y) = φ X + φ Y)
+    (h0S : S none) (h0 : φ none = 0)
+    (hinj : ∀ X Y, S X → S Y → φ X = φ Y → X = Y) (hG : S P.G) (hn : P.n • φ P.G = 0) (hp : P.n.Prime)
+    (hnb : P.n ≤ 256 ^ P.frBytes)
+    (H : Option HashFn) (d k : Nat) (msg sig : Bytes) (hk : k % P.n ≠ 0)
+    (hs : P.sign P.smul H d k msg = .ok sig) :
+    P.verify P.smul H (P.smul (Int.ofNat d) P.G) sig msg = .ok true := by
+  obtain ⟨e, hm, hr0, hrn, hs0, hsig, -, -, -⟩ := C12_ecdsa_sign_bytes P P.smul H d k msg sig hnb hp.pos hs
+  rw [C12_ecdsa_verify_iff]
+  refine ⟨_, _, e, ?_, hm, C12_ecdsa_honest_verifies P φ S hS hadd h0S h0 hinj hG hn hp d k e hk hr0 hs0⟩
+  rw [hsig]
+  exact C12_ecdsa_sig_roundtrip P _ _ hr0 hrn hs0 (Nat.mod_lt _ hp.pos) hnb
+
+/-- EdDSA, byte level: whatever `Sign` returns – for every secret scalar `a`, nonce `r`, message and hash – is accepted by
+    `Verify` under the key `[a]B`, unless the signature has `S = 0` or `R.y = 0` (which `Signature.SetBytes` refuses; `S = 0`
+    has probability 1/ℓ, `R.y = 0` is a point of order 4). Hypotheses: the model's addition is a group law on a set `S ∋ B` of
+    reduced points of the curve (C02/C03), `q` an odd prime, the square-root routine correct. -/
+theorem C12_eddsa_sign_verifies (P : EdParams) (sq : Nat → Option Nat) (φ : Nat × Nat → G) (S : Nat × Nat → Prop)
+    (hS : ∀ X Y, S X → S Y → S (P.add X Y)) (hadd : ∀ X Y, S X → S Y → φ (P.add X Y) = φ X + φ Y)
+    (h0S : S (0, (fpE P.q).one)) (h0 : φ (0, (fpE P.q).one) = 0)
+    (hinj : ∀ X Y, S X → S Y → φ X = φ Y → X = Y) (hB : S P.B) (hℓ : P.order • φ P.B = 0)
+    (hSon : ∀ X, S X → P.onCurve X = true ∧ X.1 < P.q ∧ X.2 < P.q)
+    (hp : P.q.Prime) (hodd : P.q % 2 = 1) (hsz : 0 < P.size) (hfit : P.q ≤ 2 ^ (8 * P.size - 1))
+    (hsq : SqrtSpec sq P.q) (had : (P.a : ZMod P.q) ≠ (P.d : ZMod P.q))
+    (hord : P.order ≤ 256 ^ P.size) (hpos : 0 < P.order)
+    (h : HashFn) (a r : Nat) (msg sig : Bytes)
+    (hs : P.sign P.smul (some h) (P.smul a P.B) a r msg = .ok sig)
+    (hS0 : 0 < beToNat ((sig.drop P.size).take P.size)) (hy0 : 0 < (P.smul r P.B).2) :
+    P.verify P.smul sq (some h) (P.smul a P.B) sig msg = .ok true := by
+  obtain ⟨hb, hh, -, hsig, -, -, hdec⟩ := C12_eddsa_sign_bytes P P.smul h _ a r msg sig hord hpos hs
+  have hom : ∀ k X, S X → S (P.smul k X) :=
+    fun k X hX => (teSmulNat_hom (fpE P.q) P.a P.d φ S hS hadd h0S h0 k X hX).2
+  have hR := hom r P.B hB
+  have hA := hom a P.B hB
+  rw [hdec] at hS0
+  rw [C12_eddsa_verify_iff]
+  refine ⟨(hSon _ hA).1, P.smul r P.B, (beToNat hb * a + r) % P.order, hb, ?_, hh, ?_, ?_, ?_⟩
+  · rw [hsig]
+    exact C12_eddsa_sig_roundtrip P sq _ _ hp hodd hsz hfit hsq had (hSon _ hR).2.1 hy0 (hSon _ hR).2.2 (hSon _ hR).1
+      hS0 (Nat.mod_lt _ hpos) hord
+  · exact (hSon _ (hom _ _ (hom _ _ hB))).1
+  · exact (hSon _ (hom _ _ (hS _ _ (hom _ _ hA) hR))).1
+  · have := C12_eddsa_honest_verifies P φ S hS hadd h0S h0 hinj hB hℓ a r (beToNat hb)
+    rw [Nat.add_comm] at this
+    simpa [EdParams.equation] using this
+
+/-! non-vacuity, with leading zero bytes: the toy curves of Part A′ with two bytes per scalar -/
+
+def toyEc2 : ECParams := { toyEc with frBytes := 2 }
+def toyEd2 : EdParams := { toyEd with size := 2 }
+
+/-- d = 3, k = 2, digest 5: r = x([2]G) mod 7, s = 2⁻¹(5 + 3r) mod 7, each written as `00 xx` -/
+example : toyEc2.sign toyEc2.smul none 3 2 [0, 5] = .ok [0, 1, 0, 4] := by decide
+
+example : toyEc2.verify toyEc2.smul none (toyEc2.smul (Int.ofNat 3) toyEc2.G) [0, 1, 0, 4] [0, 5] = .ok true :=
+  C12_ecdsa_sign_verifies toyEc2 toyEcPhi (· ∈ toyEcPts)
+    (fun X Y hX hY => (by decide : ∀ X ∈ toyEcPts, ∀ Y ∈ toyEcPts, toyEc2.E.add X Y ∈ toyEcPts) X hX Y hY)
+    (fun X Y hX hY => (by decide : ∀ X ∈ toyEcPts, ∀ Y ∈ toyEcPts,
+        toyEcPhi (toyEc2.E.add X Y) = toyEcPhi X + toyEcPhi Y) X hX Y hY)
+    (by decide) (by decide)
+    (fun X Y hX hY => (by decide : ∀ X ∈ toyEcPts, ∀ Y ∈ toyEcPts, toyEcPhi X = toyEcPhi Y → X = Y) X hX Y hY)
+    (by decide) (by decide) (by norm_num [toyEc2, toyEc]) (by decide) none 3 2 [0, 5] [0, 1, 0, 4] (by decide) (by decide)
+
+/-- a = 3, r = 2, constant hash 5: R = [2]B = (0, 12), S = (5·3 + 2) mod 4 = 1, written `00 01` -/
+example : toyEd2.sign toyEd2.smul (some (fun _ => .ok [5])) (toyEd2.smul 3 toyEd2.B) 3 2 [9] = .ok [12, 0, 0, 1] := by decide
+
+example : toyEd2.verify toyEd2.smul (sqrtF 13) (some (fun _ => .ok [5])) (toyEd2.smul 3 toyEd2.B) [12, 0, 0, 1] [9] = .ok true :=
+  C12_eddsa_sign_verifies toyEd2 (sqrtF 13) toyPhi (· ∈ toyPts)
+    (fun X Y hX hY => (by decide : ∀ X ∈ toyPts, ∀ Y ∈ toyPts, toyEd2.add X Y ∈ toyPts) X hX Y hY)
+    (fun X Y hX hY => (by decide : ∀ X ∈ toyPts, ∀ Y ∈ toyPts, toyPhi (toyEd2.add X Y) = toyPhi X + toyPhi Y) X hX Y hY)
+    (by decide) (by decide)
+    (fun X Y hX hY => (by decide : ∀ X ∈ toyPts, ∀ Y ∈ toyPts, toyPhi X = toyPhi Y → X = Y) X hX Y hY)
+    (by decide) (by decide)
+    (fun X hX => (by decide : ∀ X ∈ toyPts, toyEd2.onCurve X = true ∧ X.1 < toyEd2.q ∧ X.2 < toyEd2.q) X hX)
+    (by norm_num [toyEd2, toyEd]) (by decide) (by decide) (by decide) toy_sqrt (by decide) (by decide) (by decide)
+    (fun _ => .ok [5]) 3 2 [9] [12, 0, 0, 1] (by decide) (by decide) (by decide)
+
+end Signer
+
+/-! ### buffers longer than the object -/
+
+section Longer
+
+/-- ECDSA keys: only the first `pkSize` bytes of the buffer are looked at – the point decoder never sees what follows -/
+theorem C12_ecdsa_pk_prefix (P : ECParams) (sm : Int → Alg.Pt Nat → Alg.Pt Nat) (buf rest : Bytes) (h : buf.length = P.pkSize) :
+    P.pkParse sm (buf ++ rest) = P.pkParse sm buf ∧ P.pubParse sm (buf ++ rest) = P.pubParse sm buf ∧
+      P.pkConsumed sm (buf ++ rest) = P.pkConsumed sm buf := by
+  have hpk : P.pkParse sm (buf ++ rest) = P.pkParse sm buf := by
+    unfold ECParams.pkParse
+    have h1 : ¬ (buf ++ rest).length < P.pkSize := by rw [List.length_append]; omega
+    have h2 : ¬ buf.length < P.pkSize := by omega
+    rw [if_neg h1, if_neg h2]
+    simp only [List.take_left' h, List.take_of_length_le (le_of_eq h)]
+  have hpub : P.pubParse sm (buf ++ rest) = P.pubParse sm buf := by unfold ECParams.pubParse; rw [hpk]
+  exact ⟨hpk, hpub, by unfold ECParams.pkConsumed; rw [hpub]⟩
+
+/-- … so the uncompressed forms (flag bits 000 / 010), which need `2·fpBytes` bytes, are refused however long the buffer is -/
+theorem C12_ecdsa_pk_uncompressed_refused (P : ECParams) (sm : Int → Alg.Pt Nat → Alg.Pt Nat) (buf : Bytes)
+    (hk : P.maskKind ≠ 0) (hfp : 0 < P.fpBytes) (hl : P.pkSize ≤ buf.length)
+    (hf : P.flagOf (buf.headD 0).toNat = .uncompressed ∨ P.flagOf (buf.headD 0).toNat = .uncompressedInf) :
+    P.pkParse sm buf = .error .short ∧ P.pubParse sm buf = .error .short := by
+  have hsz : 0 < P.pkSize := by unfold ECParams.pkSize; rw [if_neg hk]; exact hfp
+  have hhd : (buf.take P.pkSize).headD 0 = buf.headD 0 := by
+    cases buf with
+    | nil => simp at hl; omega
+    | cons b t =>
+      obtain ⟨m, hm⟩ := Nat.exists_eq_succ_of_ne_zero (by omega : P.pkSize ≠ 0)
+      rw [hm]; rfl
+  have hpk : P.pkParse sm buf = .error .short := by
+    unfold ECParams.pkParse
+    rw [if_neg (by omega), if_neg hk]
+    simp only [hhd]
+    rcases hf with hf | hf <;> rw [hf]
+  exact ⟨hpk, by unfold ECParams.pubParse; rw [hpk]⟩
+
+/-- ECDSA private keys: `pkSize + frBytes` bytes are consumed, trailing data is ignored -/
+theorem C12_ecdsa_sk_prefix (P : ECParams) (sm : Int → Alg.Pt Nat → Alg.Pt Nat) (buf rest : Bytes)
+    (h : buf.length = P.pkSize + P.frBytes) : P.skParse sm (buf ++ rest) = P.skParse sm buf := by
+  unfold ECParams.skParse
+  have h1 : ¬ (buf ++ rest).length < P.pkSize + P.frBytes := by rw [List.length_append]; omega
+  have h2 : ¬ buf.length < P.pkSize + P.frBytes := by omega
+  rw [if_neg h1, if_neg h2]
+  have e1 : (buf ++ rest).take P.pkSize = buf.take P.pkSize := by
+    rw [List.take_append_of_le_length (by omega)]
+  have e2 : ((buf ++ rest).drop P.pkSize).take P.frBytes = (buf.drop P.pkSize).take P.frBytes := by
+    rw [List.drop_append_of_le_length (by omega), List.take_append_of_le_length (by simp; omega)]
+  rw [e1, e2]
+
+/-- signatures of both schemes have one length only -/
+theorem C12_sig_exact_length (P : ECParams) (Q : EdParams) (sq : Nat → Option Nat) (buf : Bytes) :
+    (buf.length ≠ 2 * P.frBytes → P.sigParse buf = .error .wrongSize) ∧
+    (buf.length ≠ 2 * Q.size → Q.sigParse sq buf = .error .wrongSize) :=
+  ⟨(C12_ecdsa_sig_errors P buf).1, (C12_eddsa_sig_errors Q sq buf).1⟩
+
+/-- EdDSA keys: only the first `size` (public) / `2·size + 32` (private) bytes of the buffer count -/
+theorem C12_eddsa_key_prefix (P : EdParams) (sq : Nat → Option Nat) (buf rest : Bytes) :
+    (buf.length = P.size → P.pkParse sq (buf ++ rest) = P.pkParse sq buf) ∧
+    (buf.length = P.skSize → P.skParse sq (buf ++ rest) = P.skParse sq buf) := by
+  have hdec : ∀ b : Bytes, P.size ≤ b.length → P.decompress sq (b ++ rest) = P.decompress sq b := by
+    intro b hb
+    unfold EdParams.decompress EdParams.yRaw EdParams.signBit
+    rw [List.take_append_of_le_length hb]
+  constructor
+  · intro h
+    unfold EdParams.pkParse
+    have h1 : ¬ (buf ++ rest).length < P.size := by rw [List.length_append]; omega
+    have h2 : ¬ buf.length < P.size := by omega
+    rw [if_neg h1, if_neg h2, hdec buf (by omega)]
+  · intro h
+    unfold EdParams.skSize at h
+    unfold EdParams.skParse EdParams.skSize
+    have h1 : ¬ (buf ++ rest).length < 2 * P.size + 32 := by rw [List.length_append]; omega
+    have h2 : ¬ buf.length < 2 * P.size + 32 := by omega
+    have e1 : ((buf ++ rest).drop P.size).take P.size = (buf.drop P.size).take P.size := by
+      rw [List.drop_append_of_le_length (by omega), List.take_append_of_le_length (by simp; omega)]
+    have e2 : ((buf ++ rest).drop (2 * P.size)).take 32 = (buf.drop (2 * P.size)).take 32 := by
+      rw [List.drop_append_of_le_length (by omega), List.take_append_of_le_length (by simp; omega)]
+    rw [if_neg h1, if_neg h2, hdec buf (by omega), e1, e2]
+
+/-- non-vacuity: 96 bytes starting with the flag bits 000 (what `G1Affine.SetBytes` would read as an uncompressed point)
+    are not a bls12-381 public key, whatever scalar multiplication is used -/
+example (sm : Int → Alg.Pt Nat → Alg.Pt Nat) :
+    (SigParams.ec_bls12_381).pubParse sm (List.replicate 96 (0x17 : UInt8)) = .error .short :=
+  (C12_ecdsa_pk_uncompressed_refused _ sm _ (by decide) (by decide) (by decide) (Or.inl (by decide))).2
+
+end Longer
 
 end GV.C12
